@@ -180,6 +180,25 @@ class Repo(object):
         except Exception:
             return False
 
+    def absorbed(self, qual):
+        '''a helper outside the reference inventory that no function the rules read still refers to: every use of it was
+        inlined into its callers by the equivalence step, so its body must not be counted a second time'''
+        if not self.is_helper(qual):
+            return False
+        from . import equiv
+        modname, _, q = qual.partition(':')
+        name = q.split('.')[-1]
+        mod = self.modules.get(modname)
+        if mod is None:
+            return False
+        for q2, fn, body, cls in equiv.functions(mod.tree, modname):
+            if q2 == qual or self.is_helper(q2):
+                continue
+            for n in ast.walk(fn):
+                if (isinstance(n, ast.Name) and n.id == name) or (isinstance(n, ast.Attribute) and n.attr == name):
+                    return False
+        return True
+
     def nfunc(self, qual):
         '''the function in NORMAL FORM (sa/normal.py): helpers outside the reference inventory inlined, temporaries folded,
         guards canonical.  For rules that read the shape of a function: the reference and every equivalent rewrite of it
